@@ -44,11 +44,13 @@ def whole_input_copied(F, S):
         out.append(bad("R-COPYEXT", inst, wf.loc(wf.body), wf.qn, "block i is header(fileSize of entry i) followed by a copy of reader i", "shape not found"))
     # the recorded size of entry i is Length() of reader i
     sz = None
+    from .c05 import alias_defs, resolve
     for nd in ph.nodes:
-        if nd["k"] == "DeclStmt":
-            for d in nd.get("decls", []):
-                if d.get("n") == "fileSize" and "init" in d:
-                    sz = ph.term(d["init"])
+        if is_store(nd):
+            ks = ph.kids(nd["id"])
+            l = ph.term(ks[0])
+            if l[0] == "mem" and l[2] == "fileSize":
+                sz = resolve(ph.term(ks[1]), alias_defs(ph))
     inst = VOL + "::PrepareHeader#size-is-length"
     good = sz is not None and sz[0] == "call" and sz[1].endswith("::Length") and "fileStreamReaders" in repr(sz[2])
     if good:
